@@ -53,10 +53,15 @@ ROWS = [
     ('AUTH[amount<1]', 'Card Auth', 'Fees', 'Auth', ''),
     ('ZERO[amount=0]', 'Zero', 'Fees', 'Zero', ''),
     ('SMALL[amount:0-5]', 'Small', 'Fees', 'Small', ''),
+    ('GYMB[amount>5][date:last30days]', 'Gym B', 'Health', 'Fitness', ''),       # 34: relative date next to another modifier
+    ('PLACEHOLDER', 'Todo', '', '', ''),                                          # 35: no category, no tags: classifies nothing
+    ('NONAME', '', 'Food', 'Snacks', ''),                                         # 36: no merchant name
+    ('SHORT', 'Short'),                                                           # 37: short row (missing cells are None for the loader)
+    ('BLANKCAT', 'Blank', '  ', 'Sub', ''),                                       # 38: blank category
 ]
 DESCS = ['NETFLIX.COM', 'COSTCO WHOLESALE', 'UBER EATS ORDER', 'UBER TRIP', 'SHELL OIL', 'SHELLFISH BAR', 'AMAZON MKTP', 'RENT PAYMENT', 'GYM CLUB', 'TAX OFFICE',
          'BDAY CAKE', 'RECENT THING', 'SAY "HI" STORE', 'A.B\\C LTD', 'TAGGED ITEM', 'GREEN TEA', 'Mixed Case', 'BIG BUY', 'WIRE IN', "O'BRIEN", 'DUP', '#HASH TAG',
-         'COMMA', 'BRACKET', 'SPACE', 'UTIL CO', 'AUTH HOLD', 'ZERO FEE', 'SMALL ITEM', 'NOTHING']
+         'COMMA', 'BRACKET', 'SPACE', 'UTIL CO', 'AUTH HOLD', 'ZERO FEE', 'SMALL ITEM', 'GYMB CLUB', 'PLACEHOLDER X', 'NONAME X', 'SHORT X', 'BLANKCAT X', 'NOTHING']
 AMOUNTS = [-20.0, 0.0, 0.5, 77.0, 5.0, 30.0, 49.99, 50.0, 199.99, 200.0, 200.01, 1499.99, 1499.995, 1500.0, 1500.004, 1500.02, 12345.67, 12345.68]
 DATES = [date(2025, 1, 15), date(2025, 4, 1), date(2025, 4, 30), date(2025, 5, 1), date(2025, 6, 15), date(2025, 12, 3), TODAY - timedelta(days=3), TODAY - timedelta(days=400)]
 
@@ -124,7 +129,7 @@ def check(rows_idx, probes=None):
     except Exception as e:
         key = 'C14.migrated_file_does_not_load'
         for i in rows_idx:
-            r = ROWS[i]
+            r = tuple(ROWS[i]) + ('',) * (5 - len(ROWS[i]))
             if '"' in r[0]:
                 key += '.quote_in_pattern'
             elif not r[2].strip() and not r[4].strip():
@@ -146,12 +151,16 @@ def check(rows_idx, probes=None):
             key = 'C14.classification_differs'
             if any('[amount=' in p for p in pats) and abs(amount - 1500) < 0.011 and amount != 1500.0:
                 key += '.amount_equals_tolerance'
-            elif any('last' in p and 'days' in p for p in pats) and 'RECENT' in desc:
+            elif any('last' in p and 'days' in p for p in pats) and ('RECENT' in desc or 'GYMB' in desc):
                 key += '.relative_date_dropped'
             elif any('\\b' in p for p in pats) and 'SHELL' in desc:
                 key += '.backslash_escape_in_pattern'
             elif any('\\\\' in p for p in pats) and 'A.B' in desc:
                 key += '.backslash_escape_in_pattern'
+            elif any(len(r) > 2 and r[2] and not r[2].strip() for r in rows) and isinstance(a[1], str) and a[1] and not a[1].strip() and b[1] == 'Unknown':
+                key += '.blank_only_category'
+            elif any(len(r) > 1 and not r[1].strip() for r in rows) and a[0] == '' and a[1:] == b[1:]:
+                key += '.row_without_merchant_name'
             elif [x.strip() if isinstance(x, str) else x for x in a] == [x.strip() if isinstance(x, str) else x for x in b]:
                 key += '.surrounding_blanks_in_names'
             elif any(p.startswith('(') for p in pats) and a[1] == 'Unknown' and len(pats) == 1:
@@ -176,7 +185,7 @@ def main():
         for i in range(n):
             check([i])
         # rule files with several rows (order and interaction: first match, duplicates, tag accumulation)
-        groups = [[1, 2], [2, 1], [3, 4], [4, 3], [6, 7, 8], [8, 7, 6], [22, 23], [23, 22], [16, 0], [0, 16, 17], [10, 9, 0], [19, 20, 21], [28, 29, 30], [30, 29, 28],
+        groups = [[1, 2], [2, 1], [3, 4], [4, 3], [6, 7, 8], [8, 7, 6], [22, 23], [23, 22], [16, 0], [0, 16, 17], [10, 9, 0], [19, 20, 21], [28, 29, 30], [30, 29, 28], [34, 0], [35, 0], [0, 35, 2], [36, 0], [37, 0], [0, 37], [38, 0], [34, 35, 36, 37, 0],
                   [0, 1, 2, 3, 4, 6, 7, 8, 9, 10, 11, 12, 17, 19, 20, 21, 22, 23, 24]]
         for g in groups:
             check(g)
